@@ -103,6 +103,9 @@ func check(c Case) *vfrun.Failure {
 	}
 	var faults []Fault
 	for _, cd := range kit.Candidates(ref0) {
+		if cd.Kind == "V" {
+			continue // value positions hold no user code
+		}
 		if cd.Kind == "R" {
 			faults = append(faults, Fault{cd.Key, plan.Error}, Fault{cd.Key, plan.Panic})
 			if cd.Pos.Abstract && !cd.Pos.List {
